@@ -76,6 +76,7 @@ type Ctx struct {
 	skn     int
 	rootFrame *Frame
 	defs    map[string]string // named definitions (name -> term), for syntactic frame checks
+	viewResult bool           // the slice being created is a view into a ghost stream array
 	frameTop string           // allocation horizon used by loop frame conditions
 	loopTop  map[int]string   // loop header -> allocation horizon at the loop head
 }
@@ -760,6 +761,13 @@ func (c *Ctx) freshVal(t types.Type, pfx string) Val {
 	case *types.Slice:
 		s := SliceV{c.fresh(pfx+"_a", "Int"), c.fresh(pfx+"_o", BV64), c.fresh(pfx+"_l", BV64), c.fresh(pfx+"_c", BV64), u.Elem()}
 		c.assumeSliceWF(s)
+		// array ids 1..4095 are reserved for the immutable ghost stream arrays (sid): program slices never alias them,
+		// only the views returned by Peek-like dependency contracts do
+		if c.viewResult {
+			c.assume("true", fmt.Sprintf("(and (>= %s 1) (<= %s 4095))", s.Arr, s.Arr))
+		} else {
+			c.assume("true", fmt.Sprintf("(or (= %s 0) (>= %s 4096))", s.Arr, s.Arr))
+		}
 		return s
 	case *types.Interface:
 		v := IfaceV{c.fresh(pfx+"_it", "Int"), c.fresh(pfx+"_ir", "Int")}
